@@ -195,14 +195,27 @@ func checkC17(p *core.Program, r *core.Report) {
 		}
 	}
 	// presence loop: comma-ok lookup with non-constant key whose failing edge cannot reach any insertion
+	mdnsLocalFn := func(f *ssa.Function) bool { return p.PkgShort(f) == "mdns" && f.Blocks != nil }
 	var presence *ssa.Lookup
-	core.EachInstr(proc, func(in ssa.Instruction) {
-		if l, ok := in.(*ssa.Lookup); ok && l.CommaOk && core.Canon(l.X) == elements {
-			if _, isC := strConst(l.Index); !isC && core.InLoop(l.Block()) {
-				presence = l
+	var presenceCall ssa.Instruction // call in proc of the validation helper containing the presence loop, if any
+	for _, cs := range core.ExpandSites(proc, mdnsLocalFn, 1, func(in ssa.Instruction) bool {
+		l, ok := in.(*ssa.Lookup)
+		if !ok || !l.CommaOk {
+			return false
+		}
+		_, isC := strConst(l.Index)
+		return !isC && core.InLoop(l.Block())
+	}) {
+		undo := cs.Bind()
+		l := cs.In.(*ssa.Lookup)
+		if core.Canon(l.X) == elements {
+			presence = l
+			if len(cs.Chain) > 0 {
+				presenceCall = cs.Chain[0]
 			}
 		}
-	})
+		undo()
+	}
 	ninsert := 0
 	core.EachInstr(proc, func(in ssa.Instruction) {
 		if _, ok := in.(*ssa.Call); !ok {
@@ -247,7 +260,7 @@ func checkC17(p *core.Program, r *core.Report) {
 		}
 		for _, c := range checks {
 			key := base + " guarded " + c.name
-			if core.GuardedPS(in, c.e) {
+			if core.GuardedPS(in, core.LiftEdge(c.e, mdnsLocalFn, 2)) {
 				r.OK(R1, key, p.Pos(in.Pos()), "every path passes the filter edge")
 			} else {
 				r.Fail(R1, key, p.Pos(in.Pos()), "the visible-services map is modified "+c.msg+" on some path")
@@ -256,6 +269,55 @@ func checkC17(p *core.Program, r *core.Report) {
 		key := base + " guarded mandatory-keys"
 		if presence == nil {
 			r.Fail(R1, key, p.Pos(in.Pos()), "no presence check of the mandatory TXT keys found")
+		} else if presenceCall != nil {
+			// the presence loop lives in a boolean validation helper: a missing key must make the helper answer
+			// false, and the modification must sit behind the helper's true edge
+			h := presence.Parent()
+			var okEx *ssa.Extract
+			for _, ref := range *presence.Referrers() {
+				if ex, ok := ref.(*ssa.Extract); ok && ex.Index == 1 {
+					okEx = ex
+				}
+			}
+			helperOK := okEx != nil
+			if helperOK {
+				for _, b := range h.Blocks {
+					iff := core.BlockIf(b)
+					if iff == nil {
+						continue
+					}
+					for idx := range b.Succs {
+						v, truth := core.Truth(iff.Cond, idx)
+						if v != ssa.Value(okEx) || truth {
+							continue
+						}
+						// from the missing edge only `return false` is reachable
+						for rb := range core.ReachableFrom(b.Succs[idx], nil) {
+							if len(rb.Instrs) == 0 {
+								continue
+							}
+							if ret, isRet := rb.Instrs[len(rb.Instrs)-1].(*ssa.Return); isRet {
+								if !isBoolConst(core.ResultOf(ret, 0), false) {
+									helperOK = false
+								}
+							}
+						}
+					}
+				}
+			}
+			trueEdge := func(b *ssa.BasicBlock, idx int) bool {
+				i := core.BlockIf(b)
+				if i == nil {
+					return false
+				}
+				v, truth := core.Truth(i.Cond, idx)
+				return v == ssa.Value(presenceCall.(ssa.Value)) && truth
+			}
+			if helperOK && core.Guarded(in, trueEdge) {
+				r.OK(R1, key, p.Pos(in.Pos()), "a missing mandatory key makes the validation helper answer false, and the map is only modified behind its true edge")
+			} else {
+				r.Fail(R1, key, p.Pos(in.Pos()), "a record with a missing mandatory TXT key can still modify the map")
+			}
 		} else {
 			// the !ok edge of the presence test must not reach the modification
 			okEx := func() *ssa.Extract {
@@ -492,6 +554,7 @@ func checkC17(p *core.Program, r *core.Report) {
 		r.Fail(R2, "address appends", "", "expected the filter append and the merge append")
 	}
 	checkAddressProvenance(p, r, proc, R2)
+	checkEntryKeys(p, r, proc, fEntries, R1)
 	// every address of an event is considered: the loops over the event's address list have no early exit
 	var addrParam ssa.Value
 	for _, pa := range proc.Params {
@@ -692,7 +755,6 @@ func resolverCallback(p *core.Program) *ssa.Function {
 	}
 	return found
 }
-
 
 // checkAddressProvenance (C17.R2): every address that enters an entry - merged into a known one or stored
 // with a new one - is taken from the list the link-local filter built, never from the event's raw list.
@@ -927,5 +989,59 @@ func checkAddressProvenance(p *core.Program, r *core.Report, proc *ssa.Function,
 	})
 	if n < 2 {
 		r.Fail(R2, "address provenance sites", "", fmt.Sprintf("expected the merge append and the new entry's Addresses store, found %d", n))
+	}
+}
+
+// checkEntryKeys (C17.R1): within one event, the visible-services map is looked up, stored to and deleted from
+// under one and the same key value. A store under a re-formatted key makes later removes and merges of that
+// service miss the entry.
+func checkEntryKeys(p *core.Program, r *core.Report, proc *ssa.Function, fEntries *types.Var, R1 string) {
+	isEntries := func(v ssa.Value) bool { f, _ := core.LoadedField(v); return f == fEntries }
+	keyOf := func(in ssa.Instruction) ssa.Value {
+		switch x := in.(type) {
+		case *ssa.Lookup:
+			if isEntries(x.X) {
+				return x.Index
+			}
+		case *ssa.MapUpdate:
+			if isEntries(x.Map) {
+				return x.Key
+			}
+		case *ssa.Call:
+			if isBuiltin(in, "delete") && isEntries(x.Call.Args[0]) {
+				return x.Call.Args[1]
+			}
+		}
+		return nil
+	}
+	local := func(f *ssa.Function) bool { return p.PkgShort(f) == "mdns" && f.Blocks != nil }
+	sites := core.ExpandSites(proc, local, 2, func(in ssa.Instruction) bool { return keyOf(in) != nil })
+	keys := map[ssa.Value][]string{}
+	for _, s := range sites {
+		undo := s.Bind()
+		k := core.Canon(keyOf(s.In))
+		undo()
+		what := "lookup"
+		switch s.In.(type) {
+		case *ssa.MapUpdate:
+			what = "store"
+		case *ssa.Call:
+			what = "delete"
+		}
+		keys[k] = append(keys[k], what+"@"+p.Pos(s.In.Pos()))
+	}
+	key := "one key per event for lookup / store / delete of entries"
+	switch {
+	case len(sites) < 3:
+		r.Fail(R1, key, p.Pos(proc.Pos()), fmt.Sprintf("expected the lookup, the store and the delete of the visible-services map on the resolver path, found %d accesses", len(sites)))
+	case len(keys) == 1:
+		r.OK(R1, key, p.Pos(proc.Pos()), fmt.Sprintf("%d accesses use the same key value", len(sites)))
+	default:
+		var parts []string
+		for k, v := range keys {
+			parts = append(parts, k.Name()+": "+strings.Join(v, ","))
+		}
+		sort.Strings(parts)
+		r.Fail(R1, key, p.Pos(proc.Pos()), "the map is accessed under different key values within one event ("+strings.Join(parts, " | ")+"): an entry stored under a re-formatted SKI is not found by the remove or by the next address update of the same service, so it stays visible after its removal and loses earlier addresses")
 	}
 }
